@@ -57,15 +57,23 @@ func runCrashHistory(h crashHistory, seen map[uint64]bool, st *explore.Stats) (s
 	if err != nil {
 		return "harness: " + err.Error(), nil
 	}
-	defer func() { _ = R.Close(); _ = A.Close(); _ = sim.Quiesce() }()
+	B, err := net.AddPeer("B").Start(nil)
+	if err != nil {
+		return "harness: " + err.Error(), nil
+	}
+	defer func() { _ = R.Close(); _ = A.Close(); _ = B.Close(); _ = sim.Quiesce() }()
 	ac := accesscontroller.NewEmptyManifestParams()
-	ac.SetAccess("write", []string{R.DB.Identity().ID, A.DB.Identity().ID})
+	ac.SetAccess("write", []string{R.DB.Identity().ID, A.DB.Identity().ID, B.DB.Identity().ID})
 	sr, err := R.DB.Create(bg, "db", h.kind, &orbitdb.CreateDBOptions{AccessController: ac, Replicate: boolp(false)})
 	if err != nil {
 		return "harness: " + err.Error(), nil
 	}
 	addr := sr.Address().String()
 	sa, err := A.DB.Open(bg, addr, &orbitdb.CreateDBOptions{Replicate: boolp(false)})
+	if err != nil {
+		return "harness: " + err.Error(), nil
+	}
+	sb, err := B.DB.Open(bg, addr, &orbitdb.CreateDBOptions{Replicate: boolp(false)})
 	if err != nil {
 		return "harness: " + err.Error(), nil
 	}
@@ -92,6 +100,13 @@ func runCrashHistory(h crashHistory, seen map[uint64]bool, st *explore.Stats) (s
 				hs, _ := WireCopy(addr, sa.OpLog().Heads().Slice())
 				_ = sr.Sync(bg, hs)
 			}
+		case "bw":
+			_ = writeAny(sb, fmt.Sprintf("b%d", n))
+		case "syncb":
+			if sb.OpLog().Len() > 0 {
+				hs, _ := WireCopy(addr, sb.OpLog().Heads().Slice())
+				_ = sr.Sync(bg, hs)
+			}
 		case "snap":
 			_, _ = basestore.SaveSnapshot(bg, sr)
 		}
@@ -101,7 +116,7 @@ func runCrashHistory(h crashHistory, seen map[uint64]bool, st *explore.Stats) (s
 	}
 	effects := rPeer.Effects()
 	written := map[string]ipfslog.Entry{}
-	for _, s := range []iface.Store{sr, sa} {
+	for _, s := range []iface.Store{sr, sa, sb} {
 		for _, e := range s.OpLog().GetEntries().Slice() {
 			written[e.GetHash().String()] = e
 		}
@@ -235,7 +250,7 @@ func short4(h string) string {
 }
 
 func crashHistories(depth int) []crashHistory {
-	alpha := []string{"w", "aw", "sync", "snap"}
+	alpha := []string{"w", "aw", "sync", "snap", "bw", "syncb"}
 	var out []crashHistory
 	var rec func(prefix []string)
 	rec = func(prefix []string) {
@@ -347,7 +362,7 @@ func runDiskCycles(kind string, cycles int, remote bool) (string, []explore.Viol
 func init() {
 	explore.Register(&explore.CheckDef{
 		ID: "C05", Level: "model_checking",
-		Rule: "all histories of length <= depth over {local write, remote write, sync of the remote heads, snapshot save} on replica R, for the three store types; for every history the ordered effect log of R (block writes including fetched blocks, cache puts, keystore puts) with acknowledgement markers (write returned, replicated event emitted) is recorded and for EVERY prefix of it (deduplicated by content) a recovered, isolated world is built, the database opened and loaded; oracle: recovered entries include every acknowledged entry, only written entries, closed under ancestry, order and view equal the reference over the recovered set, identity unchanged, a new write succeeds. Plus clean close/reopen cycles (1-3, with and without replication) on real leveldb directories. states = distinct crash images, transitions = recoveries. Non-trivial = crash points strictly inside an action (not at a quiescent boundary).",
+		Rule: "all histories of length <= depth over {local write, write by remote A, sync of A's heads, snapshot save, write by remote B, sync of B's heads} on replica R, for the three store types; for every history the ordered effect log of R (block writes including fetched blocks, cache puts, keystore puts) with acknowledgement markers (write returned, replicated event emitted) is recorded and for EVERY prefix of it (deduplicated by content) a recovered, isolated world is built, the database opened and loaded; oracle: recovered entries include every acknowledged entry, only written entries, closed under ancestry, order and view equal the reference over the recovered set, identity unchanged, a new write succeeds. Plus clean close/reopen cycles (1-3, with and without replication) on real leveldb directories. states = distinct crash images, transitions = recoveries. Non-trivial = crash points strictly inside an action (not at a quiescent boundary).",
 		Units: func(tier string) []explore.Unit {
 			n := 16
 			if tier == "thorough" {
@@ -378,7 +393,7 @@ func init() {
 			} else {
 				depth := 4
 				if strings.HasSuffix(prefix, "thorough") {
-					depth = 6
+					depth = 5
 				}
 				seen := map[uint64]bool{}
 				for d := 1; d <= depth; d++ {
